@@ -4,6 +4,7 @@ All blocking is done through ``Kernel.block``; nothing here ever blocks on a rea
 the baton. Objects are inert (and, where it matters, behave like the real thing) when no kernel is
 active, so that importing forml with the seams installed does not change ordinary behaviour.
 """
+import _thread
 import collections
 import concurrent.futures
 import copy
@@ -141,15 +142,17 @@ class SimQueue(_Proxy):
 class SimLock:
     """threading.Lock"""
 
+    _real_factory = staticmethod(_thread.allocate_lock)
+
     def __init__(self):
         self._owner = None
         self._oid = next(_IDS)
+        self._real = self._real_factory()  # used when no kernel is active (ordinary thread-safe lock)
 
     def acquire(self, blocking: bool = True, timeout: float = -1) -> bool:
         k = kmod.current()
         if not k:
-            self._owner = 'nokernel'
-            return True
+            return self._real.acquire(blocking, timeout)
         k.yield_('lock.acquire')
         while self._owner is not None:
             if not blocking:
@@ -161,13 +164,19 @@ class SimLock:
 
     def release(self) -> None:
         k = kmod.current()
+        if not k:
+            self._real.release()
+            return
         self._owner = None
-        if k:
-            k.wake(('lock', self._oid))
-            k.yield_('lock.release')
+        k.wake(('lock', self._oid))
+        k.yield_('lock.release')
 
     def locked(self) -> bool:
-        return self._owner is not None
+        return self._owner is not None if kmod.current() else self._real.locked()
+
+    def _at_fork_reinit(self) -> None:  # the stdlib re-initialises its locks in forked children
+        self._real._at_fork_reinit()  # pylint: disable=protected-access
+        self._owner = None
 
     __enter__ = acquire
 
@@ -178,13 +187,17 @@ class SimLock:
 class SimRLock(SimLock):
     """threading.RLock"""
 
+    _real_factory = staticmethod(_thread.RLock)
+
     def __init__(self):
         super().__init__()
         self._depth = 0
 
     def acquire(self, blocking: bool = True, timeout: float = -1) -> bool:
         k = kmod.current()
-        if k and self._owner == k.me().tid:
+        if not k:
+            return self._real.acquire(blocking, timeout)
+        if self._owner == k.me().tid:
             self._depth += 1
             return True
         got = super().acquire(blocking, timeout)
@@ -193,6 +206,9 @@ class SimRLock(SimLock):
         return got
 
     def release(self) -> None:
+        if not kmod.current():
+            self._real.release()
+            return
         self._depth -= 1
         if self._depth <= 0:
             self._depth = 0
